@@ -69,21 +69,40 @@ def draw_plan(data, el, depth):
                 plan['value'].append(pv)
     if s.content_kind(t) == 'elements':
         dfa = s.dfa(t)
-        word = gen.draw_word(data, dfa, max_len=4, stop_bias=1)
-        for a in word:
+        word = gen.draw_word(data, dfa, max_len=data.draw(st.sampled_from([3, 6])), stop_bias=3)
+        for i, a in enumerate(word):
             ct = s.element_type[a]
             if ct in EXCLUDED_TYPES:
-                plan['kids'].append({'element': a, 'stub': True})
-            elif depth > 1:
+                plan['kids'].append({'element': a, 'stub': True, 'v': i})
+            elif depth > 1 and data.draw(st.integers(0, 2)) > 0:
                 plan['kids'].append(draw_plan(data, a, depth - 1))
             else:
-                plan['kids'].append({'element': a, 'stub': True})
+                plan['kids'].append({'element': a, 'stub': True, 'v': i})
+        n = len(plan['kids'])
+        z = data.draw(st.integers(0, 5))
+        if n >= 2 and z == 0:
+            # supply the children in another order where the schema fixes the arrangement (the library re-orders)
+            from ..oracle.schema import parikh
+            if dfa.arrangements(parikh(word), limit=2) == 1:
+                plan['order'] = list(data.draw(st.permutations(list(range(n)))))
+        elif n >= 1 and z in (1, 2, 3):
+            plan['readd'] = [data.draw(st.integers(0, n - 1)) for _ in range(data.draw(st.integers(1, 2)))]
     return plan
 
 
 def build(plan):
     """returns element or raises (construction problems are not this property's subject)"""
     if plan.get('stub'):
+        if plan.get('v') is not None:
+            # same-named siblings get different values so that a permutation among them is visible in the output
+            s_ = schema()
+            tt = s_.text_type(s_.element_type[plan['element']])
+            if tt is not None:
+                vs = [x for x in lexical.valid_texts(tt) if x != '']
+                if vs:
+                    ok, pv = lexical.python_value_for(tt, vs[plan['v'] % len(vs)])
+                    if ok:
+                        return cls_for(plan['element'])(pv, xsd_check=False)
         return driver.stub(plan['element'])
     c = cls_for(plan['element'])
     kw = {py_name(q.split(':')[-1]): v for q, v in plan['ctor'].items()}
@@ -96,8 +115,18 @@ def build(plan):
         setattr(e, py_name(q.split(':')[-1]), v)
     if plan['value'] and len(plan['value']) > 1:
         e.value_ = plan['value'][1]
-    for k in plan['kids']:
-        e.add_child(build(k))
+    kids = [build(k) for k in plan['kids']]
+    order = plan.get('order') or list(range(len(kids)))
+    for i in order:
+        e.add_child(kids[i])
+    # history before the copy: remove a child and add an equivalent one again (insertion order then differs from
+    # document order among same-named children)
+    for i in plan.get('readd', []):
+        if kids:
+            j = i % len(kids)
+            e.remove(kids[j])
+            kids[j] = build(plan['kids'][j])
+            e.add_child(kids[j])
     return e
 
 
